@@ -55,20 +55,25 @@ Fixpoint fire (st : qst) (rs : list nat) : qst * list (Z * Z) :=
       (st', o :: os)
   end.
 
-Fixpoint put_loop (fuel : nat) (c : qcfg) (st : qst) (hooks : list (list nat)) (acc : list hobs)
-  : qst * list hobs :=
-  match fuel with
-  | O => (set_pc st (PDone (-1) 0), rev acc)
-  | S f =>
-      match pcs st with
-      | Idle | PDone _ _ => (st, rev acc)
-      | _ =>
+Definition mk_hobs (kind : Z) (ds : list (Z * Z)) (sn : list bool) : hobs :=
+  {| h_kind := kind; h_dets := ds; h_snap := sn |}.
+
+(** Run the Put thread to the end of Put(); at every block-list call the next
+    scheduled list of callbacks fires first.  Out of fuel: the thread is left
+    where it is (reported as code -1). *)
+Fixpoint put_loop (fuel : nat) (c : qcfg) (st : qst) (hooks : list (list nat)) : qst * list hobs :=
+  match pcs st with
+  | Idle | PDone _ _ => (st, [])
+  | _ =>
+      match fuel with
+      | O => (st, [])
+      | S f =>
           match next_call c st with
           | Some kind =>
               let '(st1, ds) := fire st (hd [] hooks) in
-              put_loop f c (put_step c st1) (tl hooks)
-                ({| h_kind := kind; h_dets := ds; h_snap := snap st1 |} :: acc)
-          | None => put_loop f c (put_step c st) hooks acc
+              let '(st2, hs) := put_loop f c (put_step c st1) (tl hooks) in
+              (st2, mk_hobs kind ds (snap st1) :: hs)
+          | None => put_loop f c (put_step c st) hooks
           end
       end
   end.
@@ -79,7 +84,7 @@ Definition put_fuel (c : qcfg) (st : qst) : nat :=
 Definition run_op (c : qcfg) (st : qst) (o : op) : qst * oobs :=
   match o with
   | OPut sz hooks =>
-      let '(st2, hs) := put_loop (put_fuel c st) c (start st sz) hooks [] in
+      let '(st2, hs) := put_loop (put_fuel c st) c (start st sz) hooks in
       let '(code, idx) := match pcs st2 with PDone a b => (a, b) | _ => (-1, 0) end in
       let st3 := finish st2 in
       (st3, BPut code idx hs (snap st3))
@@ -153,6 +158,7 @@ Fixpoint mon_ops (c : qcfg) (R D : Z) (tg : list (option Z)) (mp : list Z)
   | o :: ops', b :: obs' =>
       match o, b with
       | OPut sz hooks, BPut code idx hs sn =>
+          if code =? -1 then [] (* the model ran out of fuel: no statement *) else
           let '(R1, D1, e) := mon_hooks c R D tg hooks hs in
           let e4 := if (code =? 0) && (R1 <? D) then [4] else [] in
           let mp' := if code =? 0 then mp ++ [R1 + idx] else mp in
